@@ -352,6 +352,16 @@ class Guide:
                     out.add(f'P:T{d}.p{p}')
         return out
 
+    def computed_links_with_stored_lps(self):
+        """(type name in the owner's cone, link name) of computed links that own a stored link property (C05-F3)"""
+        out = set()
+        for o, t in self.types.items():
+            for p, v in t['own'].items():
+                if v['link'] and v['comp'] and any(not c for c in v['lps'].values()):
+                    for d in self.cone(o):
+                        out.add((d, p))
+        return out
+
     def orphan_cols(self):
         """(table, column) left behind by C05-F2"""
         out = set()
@@ -905,7 +915,7 @@ def compare_case(evs, impl, model_line):
 
 
 # monitor failures that are the recorded defects
-def classify_failure(mon_entry, lost, orphans):
+def classify_failure(mon_entry, lost, orphans, clinks=frozenset()):
     """lost: link tables hit by C05-F1 (computed -> stored on a link holding stored link properties, for
     every type of the owner's cone, names before or after the step); orphans: (table, column) left by
     C05-F2 (USING with a multi expression on a stored single property)"""
@@ -917,8 +927,21 @@ def classify_failure(mon_entry, lost, orphans):
         return 'C05-F1'
     if kind == 'orphan-column' and (mon_entry[1], mon_entry[2]) in orphans:
         return 'C05-F2'
-    if kind in ('sql-addresses-missing-column',) and lost:
-        return 'C05-F1'
+    if kind in ('sql-addresses-missing-table', 'sql-addresses-missing-column'):
+        text = str(mon_entry[2])
+        m = re.match(r'select `default`::`T(\d+)` ', text)
+        if m:
+            n = int(m.group(1))
+            for (d, p) in clinks:
+                if d == n and f'`p{p}`: {{' in text:
+                    if kind.endswith('table') and mon_entry[1] == f'P:T{d}.p{p}':
+                        return 'C05-F3'
+                    if kind.endswith('column') and re.fullmatch(r'q\d+', str(mon_entry[1])):
+                        return 'C05-F3'
+            for tname in lost:
+                mm = re.fullmatch(r'P:T(\d+)\.p(\d+)', tname)
+                if mm and int(mm.group(1)) == n and f'`p{mm.group(2)}`: {{' in text and kind.endswith('column'):
+                    return 'C05-F1'
     return None
 
 
@@ -933,9 +956,10 @@ def track_case(evs, impl):
             g.apply(e)
         after = (g.lost_tables(), g.orphan_cols())
         lost, orph = before[0] | after[0], before[1] | after[1]
+        clinks = g.computed_links_with_stored_lps()
         bad, known = [], []
         for m in st.get('mon', []) or []:
-            fid = classify_failure(m, lost, orph)
+            fid = classify_failure(m, lost, orph, clinks)
             if fid:
                 known.append((fid, m))
             else:
@@ -1205,6 +1229,10 @@ def run(tier):
         'abstain_reasons': abst_hist,
         'model_vs_impl_steps_compared': compared_steps,
         'model_vs_impl_disagreements': len(mism),
+        'model_vs_impl_first_disagreement': ({'history': [ddl(e) for e in model_cases[mism[0][0]][:mism[0][1][0] + 1]],
+                                              'case': enc_case(model_cases[mism[0][0]][:mism[0][1][0] + 1]),
+                                              'why': mism[0][1][1], 'impl': str(mism[0][1][2])[:400],
+                                              'model': str(mism[0][1][3])[:400]} if mism else None),
         'model_out_of_scope_histories': oos_cases,
         'coq_vm_compute_cross_checked': n_coq,
         'monitor_failures': len(mon_fail),
